@@ -66,6 +66,9 @@ KINDS = [
     "switch_ends_empty_case", "two_defaults", "stmt_in_message_switch", "label_in_with", "not_on_plain_bit",
     "unknown_macro", "recursive_macro_direct", "recursive_macro_indirect", "too_few_macro_args", "missing_import",
     "not_on_plain_bit_while", "jump_undefined_in_macro", "alias_in_macro",
+    # the context-free violations once more, inside a macro body (called from a routine or never called at all)
+    "switch_ends_empty_case@macro", "two_defaults@macro", "stmt_in_message_switch@macro", "label_in_with@macro",
+    "not_on_plain_bit@macro", "not_on_plain_bit_while@macro",
 ]
 
 
@@ -80,6 +83,17 @@ def inject(prog, kind, rnd: random.Random):
         b.insert(rnd.randint(0, len(b)), stmt)
         return True
 
+    if kind.endswith("@macro"):
+        # let the plain kind put its statement into a scratch routine, then move that body into a macro
+        holder = {"imports": [], "macros": [], "routines": [(("def", 0), [_u(778)])]}
+        q = inject(holder, kind[:-6], rnd)
+        if q is None:
+            return None
+        name = "holder_m"
+        p["macros"].insert(rnd.randint(0, len(p["macros"])), (name, [], q["routines"][0][1]))
+        if rnd.random() < 0.5:
+            insert(_bodies(p, lambda l, c: True), ("macro", name, []))
+        return p
     if kind == "break_outside_case":
         return p if insert(_bodies(p, lambda l, c: not c), ("ctrl", "break")) else None
     if kind == "continue_outside_loop":
